@@ -299,6 +299,23 @@ class Sym:
     def cond(self, t: str, pol: bool) -> "Sym":
         return Sym(self.env, self.conds + ((t, pol),), self.events)
 
+    def stores(self) -> list:
+        """(target text, value text) of every subscript / attribute store on the path, the base object written with the expression
+        it was created from (`d = table.setdefault(k, {}); d[x] = v` reads as `table.setdefault(k, {})[x] = v`)."""
+        made = {}
+        out = []
+        for e in self.events:
+            if e[0] == "new":
+                made[e[1]] = e[2]
+            elif e[0] == "store":
+                tgt = e[1]
+                for name, txt in made.items():
+                    if tgt.startswith(name + "[") or tgt.startswith(name + "."):
+                        tgt = txt + tgt[len(name):]
+                        break
+                out.append((tgt, e[2]))
+        return out
+
 
 class _SymSub(ast.NodeTransformer):
     def __init__(self, st: Sym):
@@ -408,7 +425,24 @@ class SymInterp(PathInterp):
     functions that differ only in how they name or stage intermediate values produce the same path summaries."""
 
     loop_unroll = 1
+    mutated: set | None = None   # names whose object is mutated in place somewhere in the analysed code (never substituted)
     epochs = False   # True: the value of an assignment that contains a call is tagged AT(<number of statement-level calls so far>, ..)
+
+    MUTATORS = ("append", "extend", "update", "add", "setdefault", "pop", "remove", "insert", "clear", "discard", "popitem", "sort", "reverse")
+
+    def block(self, stmts, states):
+        if self.mutated is None:
+            self.mutated = set()
+            for s_ in stmts:
+                for n in ast.walk(s_):
+                    if isinstance(n, (ast.Assign, ast.AugAssign, ast.Delete)):
+                        tgts = n.targets if isinstance(n, (ast.Assign, ast.Delete)) else [n.target]
+                        for t in tgts:
+                            if isinstance(t, ast.Subscript) and isinstance(t.value, ast.Name):
+                                self.mutated.add(t.value.id)
+                    elif isinstance(n, ast.Call) and isinstance(n.func, ast.Attribute) and isinstance(n.func.value, ast.Name) and n.func.attr in self.MUTATORS:
+                        self.mutated.add(n.func.value.id)
+        return PathInterp.block(self, stmts, states)
 
     def text(self, e: ast.AST, st: Sym) -> str:
         import copy as _copy
@@ -436,6 +470,10 @@ class SymInterp(PathInterp):
             if value_node is not None and isinstance(value_node, ast.Call) and ast.unparse(value_node.func) in ("copy.deepcopy", "copy.copy", "deepcopy") \
                     and len(value_node.args) == 1 and isinstance(value_node.args[0], ast.Name) and value_node.args[0].id == target.id:
                 return st.event("copy", target.id)
+            if value_node is not None and self.mutated and target.id in self.mutated and not isinstance(value_node, (ast.Name, ast.Constant)):
+                # an object that is mutated in place later: it keeps its name
+                drop = Sym(tuple((n, x) for n, x in st.env if n != target.id), st.conds, st.events)
+                return drop.event("new", target.id, value_text)
             if value_node is not None and ((isinstance(value_node, ast.Dict) and not value_node.keys) or (isinstance(value_node, (ast.List, ast.Set)) and not value_node.elts) or (
                     isinstance(value_node, ast.Call) and ast.unparse(value_node.func) in ("dict", "list", "set", "defaultdict", "collections.defaultdict", "OrderedDict") and not value_node.args)):
                 # a fresh mutable container: an object that later statements fill; the name stays (it is not a staging alias)
